@@ -16,8 +16,10 @@
 import RdfModel.Driver.Wire
 import RdfModel.Spec.JsonLdFragment
 import RdfModel.Spec.JsonLdWriter
+import RdfModel.Props.C10Defs
+import RdfModel.Props.C17Defs
 namespace RdfModel.Driver.JsonLd
-open RdfModel RdfModel.Wire RdfModel.Desc RdfModel.JL
+open RdfModel RdfModel.Wire RdfModel.Desc RdfModel.JL RdfModel.JLEnc RdfModel.C10
 
 abbrev L := List Nat
 
@@ -160,8 +162,37 @@ def parseChoices (mode11 : Bool) (base : Option L) (ctx : Option Json) (s : Stri
     | _, _, _ => none
   | _ => none
 
+/-- encoder configuration tokens: base `x<hex>|-`, prefixes `<hex>=<hex>;…|-`, buffered `0|1` -/
+def parseCfg (b ps buf : String) : Option (Cfg L) := do
+  let b ← parseBase b
+  let ps ← (if ps = "-" then some [] else (ps.splitOn ";").mapM fun e =>
+    match e.splitOn "=" with
+    | [k, v] => do
+      let k ← unhex k
+      let v ← unhex v
+      pure (utf8Decode k, utf8Decode v)
+    | _ => none)
+  pure { base := b, prefixes := ps, buffered := buf = "1", label := fun l => l }
+
+def b01 (b : Bool) : String := if b then "1" else "0"
+
 def handle (op : String) (args : List String) : Option String :=
   match op, args with
+  | "encode", [b, ps, buf, qs] => do
+    let cfg ← parseCfg b ps buf
+    let d ← parseQuads qs
+    match encode cfg d (defaultOrd d) with
+    | some doc => pure ("ok:" ++ showJson doc)
+    | none => pure "diverges"
+  | "cert", [m, db, b, ps, buf, qs] => do
+    let m ← parseMode m
+    let db ← parseBase db
+    let cfg ← parseCfg b ps buf
+    let d ← parseQuads qs
+    let cert := encCert m db cfg d (defaultOrd d)
+    let acyclic := decide (C17.Acyclic1 (d.map (·.t)))
+    pure ("cert=" ++ b01 cert ++ " dg=" ++ b01 (defaultGraphOnly d) ++ " nonative=" ++ b01 (noNativeTyped d) ++
+      " wf=" ++ b01 (decide (WFDataset d)) ++ " acyclic=" ++ b01 acyclic ++ " clash=" ++ b01 (schemeClash cfg d))
   | "write", [m, b, chs, cj, qs] => do
     let m ← parseMode m
     let b ← parseBase b
